@@ -285,6 +285,41 @@ def self_check_literals(rows):
                 raise RuntimeError(f"harness literal of {name}({p}) equals a default of the row")
 
 
+def bump(lit: str) -> str:
+    """a different but equally valid literal (numbers + 1; everything else unchanged)"""
+    try:
+        return str(int(lit) + 1)
+    except ValueError:
+        try:
+            return repr(float(lit) + 0.125)
+        except ValueError:
+            return lit
+
+
+def build_noise(rows):
+    """declarations of one extra device per class and one fully-spelled (all parameters, positional and again
+    as keywords) call per method row on it, with literals different from the ones the cases use"""
+    decls, calls = [], []
+    for name, r in rows.items():
+        if name.endswith(".__init__") or not r["call"].startswith("dev.") or not r["pre"]:
+            continue
+        cls = name.split(".")[0]
+        nm = "n" + cls.lower()
+        for d in r["pre"]:
+            d2 = d.replace("dev =", nm + " =")
+            if d2 not in decls:
+                decls.append(d2)
+        pk = [p for p in r["sig"] if p[1] == "pk"]
+        ko = [p for p in r["sig"] if p[1] == "ko"]
+        if not (pk or ko):
+            continue
+        args_pos = ", ".join([bump(literal(name, p[0])) for p in pk] + [f"{p[0]}={bump(literal(name, p[0]))}" for p in ko])
+        args_kw = ", ".join(f"{p[0]}={bump(bump(literal(name, p[0])))}" for p in pk + ko)
+        calls.append(r["call"].replace("dev.", nm + ".").format(a=args_pos))
+        calls.append(r["call"].replace("dev.", nm + ".").format(a=args_kw))
+    return {"decls": decls, "calls": calls}
+
+
 def rejected_extras(name, sig):
     """call shapes Python rejects (only Python's binder and its model see them)"""
     pks = pk_names(sig)
@@ -347,6 +382,12 @@ def run(ctx: C.Ctx):
         for idx, (npos, kwl) in enumerate(shapes):
             cases.append(make_case(name, r["sig"], npos, kwl))
             origin.append("canonical")
+            if (kwl or npos >= 2) and (perm_budget is None or idx in perm_budget):
+                # the same shape with optional spaces around '=', ',' and inside the parentheses
+                lay = make_case(name, r["sig"], npos, kwl)
+                lay["sp"] = 1 + idx % 3
+                cases.append(lay)
+                origin.append("layout")
             if len(kwl) >= 2 and (perm_budget is None or idx in perm_budget):
                 seen = {tuple(kwl)}
                 for _ in range(n_perm_k):
@@ -359,9 +400,24 @@ def run(ctx: C.Ctx):
                     seen.add(tuple(perm))
                     cases.append(make_case(name, r["sig"], npos, perm))
                     origin.append("permutation")
+    # ---------------- the same shapes as the LAST statement of a nested block, after fully-spelled calls on
+    # other devices: binding (defaults included) must not depend on what the parser handled before
+    noise = build_noise(rows)
+    n_ctx = 0
+    for name, r in rows.items():
+        if name.endswith(".__init__") or not r["call"].startswith(("dev.", "x = dev.")):
+            continue
+        for idx, (npos, kwl) in enumerate(accepted_shapes(r["sig"])):
+            c = make_case(name, r["sig"], npos, kwl)
+            c["ctx"] = ("for", "loop", "if", "try")[(idx + n_ctx) % 4]
+            cases.append(c)
+            origin.append("context")
+            n_ctx += 1
     extras = [c for name, r in rows.items() for c in rejected_extras(name, r["sig"])]
     extras += [c for name, r in info["host_only"].items() for c in []]
-    results = C.run_impl("c08_impl.py", {"op": "run", "cases": cases + extras})
+    results = C.run_impl("c08_impl.py", {"op": "run", "cases": cases + extras, "noise": noise})
+    noise_kept = results["noise_kept"]
+    results = results["results"]
     res_main, res_extra = results[:len(cases)], results[len(cases):]
 
     # ---------------- model runs
@@ -373,7 +429,8 @@ def run(ctx: C.Ctx):
         m_redu = m_py = m_guard = None
 
     dist = {"rows": len(rows), "host_only_methods": len(info["host_only"]), "canonical_shapes": origin.count("canonical"),
-            "keyword_permutations": origin.count("permutation"), "python_rejected_extras": len(extras),
+            "keyword_permutations": origin.count("permutation"), "spacing_variants": origin.count("layout"), "in_block_after_other_calls": origin.count("context"),
+            "noise_statements_kept": len(noise_kept["calls"]), "noise_statements_offered": len(noise["calls"]), "python_rejected_extras": len(extras),
             "outcomes": {}, "exception_kinds": {}, "per_row_shapes": {}, "npos": {}, "n_keywords": {}, "defaults_omitted": {},
             "excluded_by_finding": {}}
     row_real_agrees = {n: True for n in rows}
@@ -469,7 +526,7 @@ def run(ctx: C.Ctx):
         "evaluations": len(cases) + len(extras),
         "distinct_nontrivial": len(nontrivial),
         "oracle_cases_inside_guard": n_oracle,
-        "rule": "for every row (constructor / method / Core helper with a transpiler handler): every positional count 0..#positional-or-keyword, every subset of the remaining parameters that contains all required ones, passed as keywords in signature order (= every shape inspect.signature(...).bind accepts, up to keyword order) plus seeded keyword permutations; each parameter carries its own distinct literal so the binding is read off the IR fields; distinct non-trivial = distinct (row, positional count, keyword set) of rows that have at least one parameter; plus shapes Python rejects (too many positionals, unknown keyword, positional+keyword, missing required) for the py_bind model only",
+        "rule": "for every row (constructor / method / Core helper with a transpiler handler): every positional count 0..#positional-or-keyword, every subset of the remaining parameters that contains all required ones, passed as keywords in signature order (= every shape inspect.signature(...).bind accepts, up to keyword order) plus seeded keyword permutations and, every method shape again as the last statement of a for / main-loop / if / try block that first runs fully-spelled calls of every method on other devices (history independence of the binding), for every shape a re-spaced spelling (`k = v`, `k =v , `, `( k= v )`); each parameter carries its own distinct literal so the binding is read off the IR fields; distinct non-trivial = distinct (row, positional count, keyword set) of rows that have at least one parameter; plus shapes Python rejects (too many positionals, unknown keyword, positional+keyword, missing required) for the py_bind model only",
         "samples": samples,
         "distribution": dist,
         "exhaustive": True,
